@@ -131,6 +131,68 @@ def match_brace(s, open_pos, open_ch="{", close_ch="}"):
     raise ExtractionError("unbalanced %s at %d" % (open_ch, open_pos))
 
 
+
+def _top_level_conjuncts(expr):
+    """split `a && b && c` at the top nesting level (parentheses, brackets, braces); a top-level `||`, `?` or `==>` makes the whole
+    expression one conjunct"""
+    parts, depth, cur, i = [], 0, [], 0
+    while i < len(expr):
+        ch = expr[i]
+        if ch in "([{":
+            depth += 1
+        elif ch in ")]}":
+            depth -= 1
+        if depth == 0 and (expr.startswith("||", i) or ch == "?" or expr.startswith("==>", i)):
+            return [expr.strip()]
+        if depth == 0 and expr.startswith("&&", i):
+            parts.append("".join(cur).strip())
+            cur = []
+            i += 2
+            continue
+        cur.append(ch)
+        i += 1
+    parts.append("".join(cur).strip())
+    return [p for p in parts if p]
+
+
+def split_fresh_requires(contract):
+    """`requires(A && is_fresh(p, n) && B)` -> `requires(A) requires(is_fresh(p, n)) requires(B)`, in this order (the clauses of a contract are
+    assumed / asserted sequentially, so this is the same precondition).  Inside a conjunction the allocation made by __CPROVER_is_fresh is
+    conditional: symex keeps the pointer's initial invalid target in its value set and every later dereference becomes a case split with a
+    byte-level fallback (measured on orient_edges' fill slice: 6391 byte_extract operators and out of memory, versus none and 40 s)."""
+    if os.environ.get("FSL_SPLIT_FRESH", "1") == "0" or "__CPROVER_is_fresh(" not in contract:
+        return contract
+    out, i, key = [], 0, "__CPROVER_requires("
+    while True:
+        j = contract.find(key, i)
+        if j < 0:
+            out.append(contract[i:])
+            break
+        out.append(contract[i:j])
+        op = j + len(key) - 1
+        cl = match_brace(contract, op, "(", ")")
+        inner = contract[op + 1:cl]
+        parts = _top_level_conjuncts(inner) if "__CPROVER_is_fresh(" in inner else [inner]
+        if len(parts) > 1 and any(p.startswith("__CPROVER_is_fresh(") for p in parts):
+            plain = []
+            for p_ in parts:
+                if p_.startswith("__CPROVER_is_fresh("):
+                    if plain:
+                        out.append("%s%s)\n" % (key, " && ".join(plain)))
+                        plain = []
+                    out.append("%s%s)\n" % (key, p_))
+                else:
+                    plain.append(p_)
+            if plain:
+                out.append("%s%s)" % (key, " && ".join(plain)))
+            else:
+                out[-1] = out[-1].rstrip("\n")
+        else:
+            out.append(contract[j:cl + 1])
+        i = cl + 1
+    return "".join(out)
+
+
 GENERIC_RULES = [
     R(r"static_cast<\s*([A-Za-z_][\w:\s]*?)\s*>\s*\(", r"(\1)(", None),
     R(r"std::numeric_limits<\s*(?:double|data_type|elev_t|grid_data_type|T)\s*>::min\(\)", "DBL_MIN", None),
@@ -150,6 +212,7 @@ GENERIC_RULES = [
     R(r"\bstd::max\(", "FSL_MAX(", None),
     R(r"\bstd::min\(", "FSL_MIN(", None),
     R(r"\bstd::fabs\(", "fabs(", None),
+    R(r"\bstd::abs\(", "FSL_ABS(", None),
     R(r"\bstd::sqrt\(", "sqrt(", None),
     R(r"\bstd::pow\(", "fsl_pow(", None),
     R(r"\bstd::swap\(", "FSL_SWAP(", None),
@@ -355,7 +418,7 @@ def extract(unit, repo=None):
         text.append(unit.defs.rstrip() + "\n")
     text.append(unit.sig.rstrip() + "\n")
     if unit.contract.strip():
-        text.append(unit.contract.strip() + "\n")
+        text.append(split_fresh_requires(unit.contract.strip()) + "\n")
     text.append("{\n" + unit.body_prefix)
     text.append('#line %d "%s"\n' % (line_start, path))
     text.append(body)
